@@ -27,6 +27,12 @@ CHECKS = {
  "C17": dict(cat="fault_enumeration", ref="DESIGN.md 3 (C17)", technique="deterministic simulation of stored-field faults (absent / well-formed / ill-formed optional keywords) vs reference metadata derivation",
    text="presence x well-formed-format x ill-formedness lattice of every optional keyword named by the property, time channel absent / any case / duplicated, all versions and data types; file written to the simulated disk, loaded through FCSData, every attribute and accessor compared with an independent derivation; loading and accessors must not raise.",
    note="trusted: models/meta_ref.py; second fractions compared to +-1 us; ambiguous combinations accept both readings (listed in evidence assumptions)"),
+ "C20": dict(cat="exploration", ref="DESIGN.md 3 (C20)", technique="deterministic simulation of crash/restart with only serialised state surviving (pickle bytes on the simulated disk), lineage refinement + storage history for file equality",
+   text="two lineages from one generated file receive the same seeded analysis ops (<= 3 of slice channels/events, to RFI, to MEF, four gates); one lineage is restarted at seeded points by copy / copy.copy / deepcopy / view / pickle protocols 0..5 through the simulated disk (a fraction restored in a fresh interpreter); fingerprints (values, dtype kind+width, fourteen state fields, acquisition_time) compared after every step, clones mutated to prove independence; load/load/rewrite/load history for FCSFile == / != / hash.",
+   note="trusted: models/fingerprint.py; dtype compared by kind and width only (NumPy normalises byte order on pickling); NaN-free float files for the equality clause"),
+ "C04": dict(cat="exploration", ref="DESIGN.md 3 (C04)", technique="seeded operation histories over aliased handles vs NumPy reference model (bounded exhaustive key walks + random chains)",
+   text="every canonical (row key, column key) pair of the grammar on small loaded samples exhaustively (and, thorough, every pair of successive keys), plus seeded chains of up to 4 getitem/setitem ops over a pool of aliased handles; values, dtype and the seven per-channel attributes of every live handle compared with a NumPy reference model after every op; invalid keys must be refused, other forms refused or aligned.",
+   note="trusted: models/index_ref.py and NumPy's own indexing; no fault dimension; two-part keys on 1-D samples and re-indexed row samples are checked for values only"),
 }
 def main():
     checks = []
